@@ -41,8 +41,8 @@ def virtual_calls(body, trait_tail='Kinematics'):
 def is_self_field(t, field):
     """term is (self).field possibly through refs/deref/Arc::deref"""
     t = strip(t)
-    while isinstance(t, tuple) and t[0] == 'call' and mir.cname(t[1]) in ('Deref::deref', 'AsRef::as_ref', 'Borrow::borrow'):
-        t = strip(t[2])
+    while isinstance(t, tuple) and ((t[0] == 'call' and mir.cname(t[1]) in ('Deref::deref', 'AsRef::as_ref', 'Borrow::borrow')) or t[0] == 'cast'):
+        t = strip(t[2]) if t[0] == 'call' else strip(t[1])
     return isinstance(t, tuple) and t[0] == 'fld' and t[2] == field and is_param(strip(t[1]), 1)
 
 
